@@ -13,6 +13,11 @@ struct Sched {
 };
 struct Cb { void operator()(uint64_t&) noexcept; };
 using Q = ::babylon::ConcurrentBoundedQueue<uint64_t, Sched>;
+struct CbN { void operator()(Q::Iterator, Q::Iterator) noexcept; };
+void force_n(Q& q, CbN& cb, size_t n) {
+  q.pop_n<false, false, true>(cb, n);     // WAIT != WAKE on purpose: a transposition of the two flags is then visible
+  q.push_n<true, true, false>(cb, n);
+}
 void force(Q& q, Cb& cb) {
   q.push<true, true, true>(cb);
   q.pop<true, true, true>(cb);
